@@ -306,7 +306,7 @@ func c14Settings(r *Run, rep *core.Report, reach map[*ssa.Function]bool) {
 		}
 		// the settings live in sync/atomic typed fields of the cache struct or of a struct nested in it by value
 		owners := map[string]*types.Named{ct.Obj().Name(): ct}
-		var avFields []string           // fields of type atomic.Value (dynamic type discipline applies)
+		var avFields []string            // fields of type atomic.Value (dynamic type discipline applies)
 		atomicField := map[string]bool{} // "Owner.field" of every sync/atomic typed field
 		var walk func(n *types.Named, depth int)
 		walk = func(n *types.Named, depth int) {
